@@ -165,7 +165,7 @@ func TestVerifPersist(t *testing.T) {
 	tr := vopen(t, "persist")
 	defer tr.close()
 	r := &vrng{s: vseed()*179424673 + 59}
-	nstreams := vscale(6, 40)
+	nstreams := vscale(6, 16)
 	if os.Getenv("VERIF_PERSIST") == "restore-only" {
 		nstreams = vscale(40, 400)
 	}
@@ -265,7 +265,7 @@ func TestVerifPersist(t *testing.T) {
 		vars = append(vars, variant{"clean-later", clean, version, size, int64(r.next() % (1 << 44)), false})
 		vars = append(vars, variant{"smaller", clean, version, 1 + int64(r.intn(int(size))), int64(r.next() % (1 << 30)), false})
 		vars = append(vars, variant{"wrong-version", clean, version + 1, size, 0, false})
-		ntrunc := vscale(40, 400)
+		ntrunc := vscale(40, 250)
 		light := os.Getenv("VERIF_PERSIST") == "restore-only" // C04 reads only the restored-entry ticks
 		if light {
 			ntrunc = 0
@@ -285,7 +285,7 @@ func TestVerifPersist(t *testing.T) {
 				}
 			}
 		}
-		ndam := vscale(250, 2000)
+		ndam := vscale(250, 1200)
 		if light {
 			ndam = 0
 		}
